@@ -1,5 +1,6 @@
 """Recording stand-in for matplotlib.pyplot inside verif.output / verif.util
 (DESIGN.md 2.5): the claim of C16/C17 stops at the arguments of draw calls."""
+import numpy as np
 import matplotlib.cm
 
 
@@ -135,6 +136,14 @@ class Pyplot(object):
     def ylim(self, *a, **k):
         self.calls.add("mpl", "ylim", a, k)
         return (0.0, 1.0)
+
+    def xticks(self, *a, **k):
+        self.calls.add("mpl", "xticks", a, k)
+        return (np.array([]), [])
+
+    def yticks(self, *a, **k):
+        self.calls.add("mpl", "yticks", a, k)
+        return (np.array([]), [])
 
     def xlabel(self, text, **k):
         self._ax._xlabel = text
